@@ -340,6 +340,120 @@ impl Stream for Generated
 	}
 }
 
+/// a generated program split over 2-4 modules with the `pub`/`import`
+/// declarations the split needs, compiled through one Compiler and linked
+struct SplitModules;
+impl Stream for SplitModules
+{
+	fn name(&self) -> String
+	{
+		"split-module-sets".into()
+	}
+	fn count(&self, tier: Tier) -> u64
+	{
+		tier.pick(1200, 30_000)
+	}
+	fn choice_len(&self) -> usize
+	{
+		1700
+	}
+	fn timeout(&self) -> std::time::Duration
+	{
+		std::time::Duration::from_secs(120)
+	}
+	fn run(&self, idx: u64, c: &mut Choices, ctx: &RunCtx) -> CaseOut
+	{
+		let mut out = CaseOut::default();
+		let prog = progen::generate(c, progen::Profile::exec());
+		if prog.order.len() < 2
+		{
+			out.discarded = Some("fewer than two top-level declarations".into());
+			return out;
+		}
+		let nfiles = 2 + c.draw(3);
+		let split = crate::modsplit::split(c, &prog, nfiles);
+		let mut files = crate::c12::render_files(&split);
+		// file order: as split, or rotated
+		let rot = c.draw(nfiles);
+		files.rotate_left(rot);
+		let mut progs: Vec<&Program> = split.files.iter().map(|(_, p)| p).collect();
+		progs.rotate_left(rot);
+		out.key = fnv(&files.iter().map(|(_, s)| s.as_str()).collect::<Vec<_>>().join("\x00"));
+		out.nontrivial = !split.crossing.is_empty();
+		out.class(format!("files:{}", nfiles));
+		let o = alpha::compile_modules(
+			&files,
+			alpha::Options {
+				want_ir: true,
+				link: true,
+				..Default::default()
+			},
+		);
+		let detail_files = json!(files.iter().map(|(n, s)| json!({"file": n, "source": s})).collect::<Vec<_>>());
+		if let Some(e) = &o.internal_error
+		{
+			out.fail(format!("internal error {}", e.chars().take(50).collect::<String>()), json!({"files": detail_files, "error": e}));
+		}
+		else if !o.ok
+		{
+			// acceptance of split programs is C12's subject
+			out.discarded = Some("split program not accepted (C12's subject)".into());
+		}
+		else
+		{
+			let own = |p: &Program| -> Vec<FnInfo> {
+				p.order
+					.iter()
+					.filter_map(|t| match t
+					{
+						Top::Func(i) => Some(&p.funcs[*i]),
+						_ => None,
+					})
+					.map(|f| FnInfo {
+						name: f.name.clone(),
+						has_body: !f.head_only,
+						visible: f.public || f.name == "main",
+					})
+					.collect()
+			};
+			let mut all_visible = Vec::new();
+			for (k, ir) in o.module_irs.iter().enumerate()
+			{
+				let what = "module of a set";
+				verify_ir(ir, what, idx % 4 == 0, &mut out);
+				if let Some(p) = progs.get(k)
+				{
+					let infos = own(p);
+					check_definitions(ir, &infos, what, &mut out);
+					all_visible.extend(infos.into_iter().filter(|f| f.visible && f.has_body));
+				}
+			}
+			out.count("module IRs verified", o.module_irs.len() as u64);
+			match &o.linked_ir
+			{
+				Some(linked) =>
+				{
+					verify_ir(linked, "linked set", idx % 4 == 0, &mut out);
+					check_definitions(linked, &all_visible, "linked set", &mut out);
+				}
+				None => out.fail("linked set: no linked IR although every module compiled", json!({})),
+			}
+			for f in out.failures.iter_mut()
+			{
+				if let serde_json::Value::Object(m) = &mut f.detail
+				{
+					m.insert("files".into(), detail_files.clone());
+				}
+			}
+		}
+		if ctx.want_sample
+		{
+			out.sample = Some(json!({"files": detail_files}));
+		}
+		out
+	}
+}
+
 struct Corpus;
 impl Stream for Corpus
 {
@@ -459,6 +573,6 @@ impl Check for C03
 	}
 	fn streams(&self) -> Vec<Box<dyn Stream>>
 	{
-		vec![Box::new(Generated), Box::new(Corpus)]
+		vec![Box::new(Generated), Box::new(SplitModules), Box::new(Corpus)]
 	}
 }
